@@ -118,10 +118,15 @@ func syscGen(g *hx.Gen, id int) (int, []scOp) {
 		// directed history: a cacheable entry goes stale, its revalidation is answered 200 with a NEW
 		// body that breaks off mid-stream; afterwards nobody may be served the fragment
 		p := paths[0]
+		// (the entry may grant stale-if-error: the broken-off answer is a 200, not an origin error - seeded change C13-m7)
+		cc := "max-age=5"
+		if g.Chance(40) {
+			cc = "max-age=5, stale-if-error=300"
+		}
 		mk := func(rerr bool) scOp {
 			version++
 			o := scOp{kind: 'O', path: p, status: 200, rerr: -1, chunk: g.Chance(30),
-				hdr: [][2]string{{"Cache-Control", "max-age=5"}, {"Content-Type", "text/plain"}}}
+				hdr: [][2]string{{"Cache-Control", cc}, {"Content-Type", "text/plain"}}}
 			if g.Chance(50) {
 				o.hdr = append(o.hdr, [2]string{"ETag", "\"e" + hx.I(version) + "\""})
 			}
